@@ -28,6 +28,8 @@ def grep_gate():
             pass
         src = open(os.path.join(build.COQ, vf)).read()
         src = re.sub(r"\(\*.*?\*\)", "", src, flags=re.S)
+        # string literals cannot declare anything (and the generated tables quote Go identifiers)
+        src = re.sub(r'"(?:[^"]|"")*"', '""', src)
         for m in GATE.finditer(src):
             bad.append("%s: %s" % (vf, m.group(0)))
     # Variable / Hypothesis outside a section
